@@ -1,7 +1,7 @@
 #!/bin/sh
 # runs every seeded change against its own property's quick check
 for d in /verif/seeded/C*; do
-  id=$(basename $d)
+  id=$(basename $d | cut -c1-3)
   /verif/tools/runmutant.sh $d/patch.diff $id 2>&1 | head -2 | tr '\n' ' ' | cut -c1-200
   echo
 done
